@@ -312,6 +312,8 @@ pub fn generate(rng: &mut Rng, tier: Tier, emit: &mut dyn FnMut(String)) {
     // the real MetadataWorker in front of the channel (producer side: which fetch serves which request)
     crate::c19_producer::generate(rng, tier, &mut |c| light.push(c));
     crate::c19_producer::generate_estab(tier, &mut |c| light.push(c));
+    // the real ControlConnectionEvents::wait_for_event at poll granularity, cancelled and restarted
+    crate::c19_evwait::generate(rng, tier, &mut |c| light.push(c));
     // two OS threads (spread evenly over the case list so that the runner's chunks share them)
     let mut heavy: Vec<String> = Vec::new();
     let (cases, n) = if quick { (24, 30_000u64) } else { (60, 300_000u64) };
@@ -790,7 +792,13 @@ pub fn run(case: &str, ctx: &mut Ctx) -> String {
         ["slot"] => run_slot("", ctx),
         ["slot", body] => run_slot(body, ctx),
         ["producer", body] => crate::c19_producer::run_producer(body, ctx),
+        ["producer", iv, body] => match crate::c19_producer::interval_of(iv) {
+            Some(d) => crate::c19_producer::run_producer_iv(d, body, ctx),
+            None => "bad-case".into(),
+        },
         ["estab", script, rej, f] => crate::c19_producer::run_estab(script, rej, f, ctx),
+        ["evwait", capw] => crate::c19_evwait::run_evwait(capw, "", ctx),
+        ["evwait", capw, body] => crate::c19_evwait::run_evwait(capw, body, ctx),
         ["worker"] => crate::c19_worker::run_worker("", ctx),
         ["worker", body] => crate::c19_worker::run_worker(body, ctx),
         ["stress", n, mode, seed] => match (n.parse(), mode.parse(), seed.parse()) {
